@@ -197,6 +197,82 @@ pub fn selftest() -> i32 {
         }
     }
 
+    // 4b. the reference denotation against REAL serde values: for every listed type the samples crate
+    // builds values, serialises them with serde_json, and each must be a member of denote(type);
+    // and the denotation must not be coarser than serde on this list: two types with different
+    // denotations are told apart by at least one sample
+    {
+        use crate::shape::{denote, json_in_shape, Shape};
+        let resolve = |n: &str| match n {
+            "Item" => Some(Shape::Obj([("id".to_string(), (Shape::Num, false))].into_iter().collect(), None)),
+            "Kind" => Some(Shape::Union([Shape::Lit("Alpha".into()), Shape::Lit("Beta".into())].into_iter().collect())),
+            _ => None,
+        };
+        match std::fs::read_to_string(crate::core::verif_root().join("harness/samples/src/lib.rs")) {
+            Ok(t) if t == crate::gen::samples_source() => {}
+            _ => failures.push("harness/samples/src/lib.rs is stale: run `ttv gen-fixtures` and rebuild".into()),
+        }
+        let types = crate::gen::binding_types();
+        let table = ttv_samples::table();
+        if types.len() != table.len() {
+            failures.push(format!("samples table has {} rows, {} types listed", table.len(), types.len()));
+        }
+        let mut bound = 0u64;
+        let mut refused = 0u64;
+        // (type, denotation, serialised samples, did serde_json refuse any sample?)
+        let mut rows: Vec<(&crate::gen::RTy, Shape, Vec<&serde_json::Value>, bool)> = vec![];
+        for (t, (text, vals)) in types.iter().zip(table.iter()) {
+            if &t.to_rust() != text {
+                failures.push(format!("samples table row {} is for {}", t.to_rust(), text));
+                continue;
+            }
+            let sh = denote(t);
+            let mut some = vec![];
+            for v in vals {
+                match v {
+                    Some(v) => {
+                        checks += 1;
+                        bound += 1;
+                        if !json_in_shape(v, &sh, &resolve) {
+                            failures.push(format!("denotation vs serde: {} serialises to {} which is not in {}", text, v, sh.show()));
+                        }
+                        some.push(v);
+                    }
+                    None => refused += 1,
+                }
+            }
+            let any_refused = vals.iter().any(|v| v.is_none());
+            rows.push((t, sh, some, any_refused));
+        }
+        // discrimination on the depth <= 1 rows (the deeper ones are built from these positions)
+        // (types of which serde_json refuses a sample - non-string map keys, 128-bit extremes - keep
+        // only their trivial samples and are left out)
+        let small: Vec<&(&crate::gen::RTy, Shape, Vec<&serde_json::Value>, bool)> = rows.iter().filter(|r| r.0.depth() <= 1 && !r.2.is_empty() && !r.3).collect();
+        for (i, a) in small.iter().enumerate() {
+            for b in small.iter().skip(i + 1) {
+                if a.1 == b.1 {
+                    continue;
+                }
+                // `()` and `Option<()>` are both just null on the wire (void vs void | null)
+                let nullish = |s: &Shape| match s {
+                    Shape::Void | Shape::Null | Shape::Undef => true,
+                    Shape::Union(alts) => alts.iter().all(|x| matches!(x, Shape::Void | Shape::Null | Shape::Undef)),
+                    _ => false,
+                };
+                if nullish(&a.1) && nullish(&b.1) {
+                    continue;
+                }
+                checks += 1;
+                let a_out = a.2.iter().any(|v| !json_in_shape(v, &b.1, &resolve));
+                let b_out = b.2.iter().any(|v| !json_in_shape(v, &a.1, &resolve));
+                if !a_out && !b_out {
+                    failures.push(format!("denotation finer than serde: {} ({}) and {} ({}) differ but no sample of either falls outside the other", a.0.to_rust(), a.1.show(), b.0.to_rust(), b.1.show()));
+                }
+            }
+        }
+        crate::outln!("selftest: denotation bound to serde on {} types ({} values; {} refused by serde_json)", rows.len(), bound, refused);
+    }
+
     // 5. the getrandom shim owns the hash seeds of a spawned process: equal seeds give equal
     // iteration orders, and the seed alphabet realises several orders
     if crate::run::seed_shim().is_some() {
